@@ -561,3 +561,186 @@ def g_resize(rng):
             ops.append({"op": "wait", "futs": "all"})
     ops += [{"op": "wait", "futs": "all"}, {"op": "quiesce", "ex": ["e"]}]
     return {"threads": [ops], "end": "return"}, {"gen": "g_resize", "kw": kw, "old": old}
+
+
+# ---------------------------------------------------------------------------
+def _nest_chain(rng, depth_to, ctxs=("loky",), timeouts=(10,), fork_at=None, level=1):
+    """Spec of a nested task that builds an executor at worker level `level` and
+    recurses until depth_to (inclusive: the innermost one only tries to construct)."""
+    kind = rng.choice(["reusable", "plain"])
+    kw = {"max_workers": rng.randint(1, 2), "timeout": rng.choice(timeouts)}
+    ctx = rng.choice(ctxs)
+    if ctx != "loky" or kind == "plain":
+        kw["context"] = ctx
+    if fork_at == level:
+        kind = "plain"
+        kw["context"] = "fork"
+    sub = [{"k": "probe", "what": ["depth", "pid"]}]
+    if level < depth_to:
+        sub.append(_nest_chain(rng, depth_to, ctxs, timeouts, fork_at, level + 1))
+        sub.append({"k": "probe", "what": ["depth", "pid"]})
+        if rng.random() < 0.4:
+            sub.append({"k": "sleep", "d": 0.02})
+    return {"k": "nested", "kind": kind, "kw": kw, "sub": sub, "then": "wait", "shutdown": kind == "plain"}
+
+
+def g_depth(rng):
+    """C19: chains of nested executors up to MAX_DEPTH+1, with reuse / respawn / resize histories."""
+    maxd = rng.choice([1, 2, 3, 4, None, 0, -1])
+    env = {} if maxd is None else {"LOKY_MAX_DEPTH": str(maxd)}
+    limit = 10 if maxd is None else maxd
+    if limit > 0:
+        depth_to = min(limit, 4) if maxd is None else limit
+    else:
+        depth_to = rng.choice([3, 5])
+    fork_at = rng.choice([None, None, None, 1, 2]) if depth_to >= 1 else None
+    tmo = rng.choice([10, 10, 0.1])
+    kind = rng.choice(["reusable", "plain"])
+    kw = {"max_workers": rng.randint(1, 2), "timeout": tmo}
+    ops = [{"op": "new", "ex": "e", "kind": kind, "kw": kw}]
+    ops.append({"op": "submit", "ex": "e", "task": {"k": "probe", "what": ["depth", "pid"]}})
+    ops.append({"op": "submit", "ex": "e", "task": _nest_chain(rng, depth_to, ctxs=("loky", "loky", "loky_init_main"), timeouts=(10, 10, 0.1), fork_at=fork_at)})
+    ops.append({"op": "wait", "futs": "all"})
+    r = rng.random()
+    if r < 0.35:
+        # the same workers are reused by a second chain
+        ops.append({"op": "submit", "ex": "e", "task": _nest_chain(rng, depth_to, timeouts=(10,))})
+    elif r < 0.6 and tmo < 1:
+        ops += [{"op": "sleep", "d": 0.4}, {"op": "submit", "ex": "e", "task": _nest_chain(rng, min(depth_to, 2), timeouts=(10,))}]
+    elif r < 0.8 and kind == "reusable":
+        ops += [{"op": "get_reusable", "ex": "e", "kw": dict(kw, max_workers=3)}, {"op": "submit", "ex": "e", "task": {"k": "probe", "what": ["depth", "pid"]}},
+                {"op": "submit", "ex": "e", "task": {"k": "probe", "what": ["depth", "pid"]}}, {"op": "submit", "ex": "e", "task": {"k": "probe", "what": ["depth", "pid"]}}]
+    ops += [{"op": "wait", "futs": "all"}, {"op": "shutdown", "ex": "e", "wait": True}]
+    return {"threads": [ops], "end": "return"}, {"gen": "g_depth", "max_depth": maxd, "depth_to": depth_to, "fork_at": fork_at, "kind": kind, "env": env}
+
+
+def g_fresh(rng):
+    """C18: canary descriptors, env overlays, initializer on every kind of worker arrival."""
+    ctx = rng.choice(["loky", "loky", "loky", "loky_init_main"])
+    kind = rng.choice(["plain", "reusable"])
+    tmo = rng.choice([10, 0.1, 0.05])
+    mw = rng.randint(1, 3)
+    overlay = {}
+    for i in range(rng.randint(0, 3)):
+        overlay[rng.choice(["LV_A", "LV_B", "PATH_EXTRA", "LV_EMPTY", "HOME"])] = rng.choice(["1", "x y", "", "/tmp/é".encode("ascii", "ignore").decode(), "a=b"])
+    init_variant = rng.choice(["none", "token", "token", "fail_nth", "leak0"])
+    kw = {"max_workers": mw, "timeout": tmo}
+    if ctx != "loky" or kind == "plain":
+        kw["context"] = ctx
+    if overlay and ctx == "loky":
+        kw["env"] = overlay
+    counter = "$CASE/initcount"
+    if init_variant == "token":
+        kw["initializer"] = {"token": "T%d" % rng.randint(0, 9)}
+    elif init_variant == "fail_nth":
+        kw["initializer"] = {"token": "T", "counter_file": counter, "fail_on": [rng.randint(1, mw + 2)]}
+    elif init_variant == "leak0":
+        kw["initializer"] = {"token": "L", "leak0": True}
+    ops = []
+    canaries = []
+    for i in range(rng.randint(1, 4)):
+        c = {"kind": rng.choice(["pipe", "socket", "file"]), "inheritable": rng.random() < 0.6}
+        if rng.random() < 0.5:
+            c["at"] = rng.choice([50, 200, 333, 700, 1000]) + 10 * i
+        canaries.append(c)
+    ops.append({"op": "canary", "fds": canaries})
+    if rng.random() < 0.5:
+        ops.append({"op": "setenv", "env": {"LV_PARENT": rng.choice(["p1", ""]), "LV_A": "parent"}})
+    ops.append({"op": "new", "ex": "e", "kind": kind, "kw": kw})
+    what = ["init", "main", "pid"]
+    for i in range(rng.randint(1, 2 * mw)):
+        ops.append({"op": "submit", "ex": "e", "task": {"k": "probe", "what": what}})
+    ops.append({"op": "keeplists", "ex": "e"})
+    ops.append({"op": "wait", "futs": "all"})
+    if tmo < 1:
+        ops += [{"op": "sleep", "d": 4 * tmo}]
+        for i in range(rng.randint(1, mw + 1)):
+            ops.append({"op": "submit", "ex": "e", "task": {"k": "probe", "what": what}})
+        ops += [{"op": "keeplists", "ex": "e"}, {"op": "wait", "futs": "all"}]
+    if kind == "reusable":
+        ops.append({"op": "get_reusable", "ex": "e", "kw": dict(kw, max_workers=mw + 2)})
+        for i in range(mw + 3):
+            ops.append({"op": "submit", "ex": "e", "task": {"k": "probe", "what": what}})
+        ops += [{"op": "keeplists", "ex": "e"}, {"op": "wait", "futs": "all"}]
+    ops += [{"op": "wait", "futs": "all"}, {"op": "shutdown", "ex": "e", "wait": True}]
+    return {"threads": [ops], "end": "return"}, {"gen": "g_fresh", "ctx": ctx, "kind": kind, "kw": kw, "init": init_variant, "overlay": overlay}
+
+
+ALL_SIGNALS = ["SIGHUP", "SIGINT", "SIGQUIT", "SIGILL", "SIGTRAP", "SIGABRT", "SIGBUS", "SIGFPE", "SIGKILL", "SIGUSR1", "SIGSEGV", "SIGUSR2", "SIGPIPE",
+               "SIGALRM", "SIGTERM", "SIGXCPU", "SIGXFSZ", "SIGVTALRM", "SIGPROF", "SIGIO", "SIGPWR", "SIGSYS", "SIGSTKFLT"]
+
+
+def g_exitstatus(rng, full=False):
+    codes = list(range(256)) if full else sorted(set([0, 1, 2, 127, 128, 255] + [rng.randint(0, 255) for _ in range(22)]))
+    sigs = ALL_SIGNALS if full else rng.sample(ALL_SIGNALS, 8)
+    ways = []
+    for c in codes:
+        ways.append([rng.choice(["os_exit", "cexit", "sys_exit"]) if not full else "os_exit", c])
+    if full:
+        ways += [["cexit", c] for c in codes[::5]] + [["sys_exit", c] for c in codes[::5]]
+    ways += [["signal", s] for s in sigs]
+    ways += [["return", 0], ["raise", 1]]
+    ctx = rng.choice(["loky", "loky_init_main"])
+    ops = [{"op": "exitstatus", "ways": ways, "ctx": ctx, "batch": 12, "hold": 0.3}]
+    return {"threads": [ops], "end": "return"}, {"gen": "g_exitstatus", "ctx": ctx, "n": len(ways)}
+
+
+def _lifecycle(rng):
+    kind = rng.choice(["plain", "plain", "reusable", "nested"])
+    how = rng.choice(["wait", "nowait", "with", "del", "killed", "broken", "timeout", "resized"])
+    mw = rng.randint(1, 3)
+    tmo = 0.05 if how == "timeout" else rng.choice([None, 10])
+    body = []
+    if kind == "reusable" or how == "resized":
+        kw = {"max_workers": mw, "timeout": tmo if tmo is not None else 10}
+        body.append({"op": "new", "ex": "x", "kind": "reusable", "kw": kw})
+        kind = "reusable"
+    else:
+        body.append({"op": "new", "ex": "x", "kind": "plain", "kw": {"max_workers": mw, "timeout": tmo}})
+    n = rng.randint(1, 5)
+    for i in range(n):
+        if kind == "nested" and i == 0:
+            body.append({"op": "submit", "ex": "x", "task": {"k": "nested", "kind": "plain", "kw": {"max_workers": 1, "timeout": None}, "sub": [{"k": "ok", "x": 1}], "then": "wait", "shutdown": True}})
+        else:
+            body.append({"op": "submit", "ex": "x", "task": benign_task(rng, slow_ok=False)})
+    if how == "broken":
+        body.append({"op": "submit", "ex": "x", "task": t_breaking(rng)})
+    if how == "killed":
+        body.append({"op": "submit", "ex": "x", "task": {"k": "endless"}})
+        body.append({"op": "sleep", "d": 0.05})
+        body.append({"op": "shutdown", "ex": "x", "kill_workers": True})
+        body.append({"op": "wait", "futs": "all"})
+    else:
+        body.append({"op": "wait", "futs": "all"})
+        if how == "timeout":
+            body.append({"op": "sleep", "d": 0.3})
+            body.append({"op": "submit", "ex": "x", "task": t_ok(rng)})
+            body.append({"op": "wait", "futs": "all"})
+        if how == "resized":
+            body.append({"op": "get_reusable", "ex": "x", "kw": dict(kw, max_workers=mw + 1)})
+            body.append({"op": "submit", "ex": "x", "task": t_ok(rng)})
+            body.append({"op": "wait", "futs": "all"})
+        if how in ("wait", "broken", "timeout", "resized", "killed") or (kind == "reusable" and how == "del"):
+            body.append({"op": "shutdown", "ex": "x", "wait": True})
+        elif how == "nowait":
+            body += [{"op": "shutdown", "ex": "x", "wait": False}, {"op": "join_mgr", "ex": "x"}]
+        elif how == "with":
+            body = [body[0], {"op": "with", "ex": "x", "body": body[1:]}]
+        elif how == "del":
+            body += [{"op": "del", "ex": "x"}, {"op": "join_mgr", "ex": "x"}]
+    body.append({"op": "forget", "ex": ["x"]})
+    return body, "%s/%s" % (kind, how)
+
+
+def g_life(rng):
+    """C20: the same history once (warm-up) then N more times; censuses must be equal."""
+    nl = rng.choice([1, 1, 2, 3])
+    body = []
+    names = []
+    for i in range(nl):
+        b, nm = _lifecycle(rng)
+        body += b
+        names.append(nm)
+    N = rng.choice([2, 5, 20]) if nl == 1 else rng.choice([2, 5])
+    ops = list(body) + [{"op": "census", "tag": "after_1", "grace": 4.0}, {"op": "repeat", "n": N, "body": body}, {"op": "census", "tag": "after_1+N", "grace": 4.0}]
+    return {"threads": [ops], "end": "return"}, {"gen": "g_life", "lifecycles": names, "N": N}
